@@ -1074,7 +1074,8 @@ func (p *Parser) parseAnyClass(expr bool) (classDecl *ClassDecl) {
 
 func (p *Parser) parseClassElement() ClassElement {
 	method := &MethodDecl{}
-	var data []byte // either static, async, get, or set
+	var data []byte   // either static, async, get, or set
+	modifier := false // data is async, get, or set
 	if p.tt == StaticToken {
 		method.Static = true
 		data = p.data
@@ -1092,6 +1093,7 @@ func (p *Parser) parseClassElement() ClassElement {
 		p.next()
 	} else if p.tt == AsyncToken {
 		data = p.data
+		modifier = true
 		p.next()
 		if !p.prevLT {
 			method.Async = true
@@ -1100,14 +1102,20 @@ func (p *Parser) parseClassElement() ClassElement {
 				data = nil
 				p.next()
 			}
+		} else if p.tt != OpenParenToken && p.tt != EqToken && p.tt != SemicolonToken && p.tt != CloseBraceToken {
+			// async followed by a newline is not a modifier but a field name, followed by the next class element
+			method.Name.Literal = LiteralExpr{IdentifierToken, data}
+			return ClassElement{Field: Field{Static: method.Static, Name: method.Name}}
 		}
 	} else if p.tt == GetToken {
 		method.Get = true
 		data = p.data
+		modifier = true
 		p.next()
 	} else if p.tt == SetToken {
 		method.Set = true
 		data = p.data
+		modifier = true
 		p.next()
 	}
 
@@ -1115,7 +1123,7 @@ func (p *Parser) parseClassElement() ClassElement {
 	if data != nil && p.tt == OpenParenToken {
 		// (static) method name is: static, async, get, or set
 		method.Name.Literal = LiteralExpr{IdentifierToken, data}
-		if method.Async || method.Get || method.Set {
+		if modifier {
 			method.Async = false
 			method.Get = false
 			method.Set = false
@@ -1125,7 +1133,7 @@ func (p *Parser) parseClassElement() ClassElement {
 	} else if data != nil && (p.tt == EqToken || p.tt == SemicolonToken || p.tt == CloseBraceToken) {
 		// (static) field name is: static, async, get, or set
 		method.Name.Literal = LiteralExpr{IdentifierToken, data}
-		if !method.Async && !method.Get && !method.Set {
+		if !modifier {
 			method.Static = false
 		}
 		isField = true
